@@ -57,7 +57,10 @@ Consume ==
          [] e.k = "end"   -> UNCHANGED vars /\ PrintT(<<"KD_PATH", l, kd>>)   \* one line per explanation of the run
          [] OTHER -> FALSE
 
-TraceNext == Consume
+\* overlapping calls of concurrent executions: alternatives, see TraceIO.tla
+AltJump == IsAltRec(l) /\ l' \in AltTargets(l) /\ UNCHANGED vars
+
+TraceNext == Consume \/ AltJump
 TraceSpec == TraceInit /\ [][TraceNext]_tvars
 
 Progress == TraceProgress(l)
